@@ -144,6 +144,9 @@ def run(ctx):
 
 
 def replay(ctx, data):
+    from props import schemax as _sx
+    if isinstance(data, dict) and _sx.replay_family_build(ctx, data):
+        return
     winit()
     out, n, st = work((data['name'], data.get('origin'), False))
     for label, lang, sess, kind, detail in out:
